@@ -40,7 +40,9 @@ CONSTANTS Callers,      \* set of caller ids (a caller's serial is its id)
           SigRules,     \* [Sigs -> SUBSET Rules]: which rules a signal matches
           MaxStray,     \* number of stray replies the peer may send
           MaxFault,     \* 0 or 1: may the transport fail
-          SubscribeFirst \* TRUE = the implementation's order; FALSE = mutant (subscribe after send)
+          SubscribeFirst, \* TRUE = the implementation's order; FALSE = mutant (subscribe after send)
+          CloneCounts     \* TRUE = cloning a stream adds a subscription (what C20 demands);
+                          \* FALSE = named deviation "clone_no_refcount": the clone shares the rule but is not counted
 
 None == "none"
 NoHolder == 0      \* callers are positive integers
@@ -232,12 +234,28 @@ SDrop(s) ==
   /\ sst[s] = "active" /\ rd.st \in {"idle", "stopped"}
   /\ LET r == RuleOf[s]
          n == Released(r, scur[s]) IN
-       /\ q' = [q EXCEPT ![r] = IF subs[r] = 1 THEN <<>> ELSE n.qq]
-       /\ head' = [head EXCEPT ![r] = IF subs[r] = 1 THEN head[r] + Len(q[r]) ELSE n.hh]
-       /\ subs' = [subs EXCEPT ![r] = @ - 1]
+       /\ q' = [q EXCEPT ![r] = IF subs[r] <= 1 THEN <<>> ELSE n.qq]
+       /\ head' = [head EXCEPT ![r] = IF subs[r] <= 1 THEN head[r] + Len(q[r]) ELSE n.hh]
+       /\ subs' = [subs EXCEPT ![r] = IF @ > 0 THEN @ - 1 ELSE 0]
        /\ open' = [open EXCEPT ![r] = subs[r] > 1 /\ open[r]]
+       \* when the last counted subscription goes, the sender is removed: remaining receivers see the end
+       /\ closed' = [closed EXCEPT ![r] = IF subs[r] <= 1 /\ \E t \in Streams : t # s /\ sst[t] = "active" /\ RuleOf[t] = r THEN TRUE ELSE @]
   /\ sst' = [sst EXCEPT ![s] = "dropped"]
-  /\ UNCHANGED <<pc, cur, cact, res, wlock, wire, net, rd, closed, scur, should, got, answered, strays, sigsSent, faults, faulted>>
+  /\ UNCHANGED <<pc, cur, cact, res, wlock, wire, net, rd, scur, should, got, answered, strays, sigsSent, faults, faulted>>
+
+\* cloning a stream: the clone continues from its original's cursor
+SClone(s, s2) ==
+  /\ sst[s] = "active" /\ sst[s2] = "none" /\ s # s2 /\ RuleOf[s2] = RuleOf[s]
+  /\ LET r == RuleOf[s] IN
+       /\ q' = [q EXCEPT ![r] = [i \in 1..Len(q[r]) |-> IF head[r] + i - 1 >= scur[s] THEN <<q[r][i][1], q[r][i][2] + 1>> ELSE q[r][i]]]
+       /\ scur' = [scur EXCEPT ![s2] = scur[s]]
+       /\ subs' = [subs EXCEPT ![r] = IF CloneCounts THEN @ + 1 ELSE @]
+       \* what the clone will see: the queued entries from the cursor on, plus a message the reader has read
+       \* but not yet broadcast to this channel
+       /\ should' = [should EXCEPT ![s2] = [i \in 1..(head[r] + Len(q[r]) - scur[s]) |-> q[r][scur[s] - head[r] + i][1].id]
+                                              \o (IF rd.st = "bcast" /\ r \in rd.todo /\ rd.m.k = "sig" THEN <<rd.m.id>> ELSE <<>>)]
+  /\ sst' = [sst EXCEPT ![s2] = "active"]
+  /\ UNCHANGED <<pc, cur, cact, res, wlock, wire, net, rd, head, open, closed, got, answered, strays, sigsSent, faults, faulted>>
 
 Next ==
   \/ \E c \in Callers : CStart(c) \/ CLock(c) \/ CWrite(c) \/ CLateSub(c) \/ CPoll(c) \/ CDrop(c) \/ CStartAfterFault(c)
@@ -245,6 +263,7 @@ Next ==
   \/ PeerStray \/ (\E g \in Sigs : PeerSignal(g)) \/ Fault
   \/ RRead \/ RReadFail \/ (\E ch \in Chans : RBcast(ch)) \/ RDone
   \/ \E s \in Streams : SSub(s) \/ SPoll(s) \/ SDrop(s)
+  \/ \E s, s2 \in Streams : SClone(s, s2)
 
 \* fairness: every task of the implementation keeps running and consumers keep polling
 Spec == Init /\ [][Next]_vars /\ WF_vars(Next)
@@ -269,6 +288,8 @@ InFlight(c) ==
   \/ (rd.st = "bcast" /\ rd.m.rs = c /\ MR \in rd.todo)
   \/ (cact[c] /\ \E i \in 1..Len(q[MR]) : head[MR] + i - 1 >= cur[c] /\ q[MR][i][1].rs = c)
 NoLostReply == \A c \in Callers : (c \in answered /\ res[c].k = "none") => InFlight(c)
+\* C20: a stream only ends because the transport failed, never because another stream was dropped
+NoEarlyEnd == \A s \in Streams : sst[s] = "ended" => faulted
 \* nothing left to do  =>  every call that was answered (or hit by the fault) is complete, every live stream got everything
 Stuck == ~ENABLED Next
 Complete ==
